@@ -384,7 +384,7 @@ Qed.
 (* ------------------------------------------------------------------ the logical reading *)
 Definition opaque (g : cgoal) : Prop :=
   match g with
-  | CDom _ _ | CPost _ | CProbe _ | CSq _ _ | CEveryg _ _ _ _ _ | CProject _ _ _ _ | CForceAns _ | CEnforceFd | CReify _ => True
+  | CDom _ _ | CPost _ | CProbe _ | CSq _ _ | CForceAns _ | CEnforceFd | CReify _ => True
   | _ => False
   end.
 
@@ -403,6 +403,20 @@ Inductive Den (defs : list (nat * def)) (th : val) : cgoal -> Prop :=
 | D_condu_commit f r nx : Den defs th f -> Den defs th r -> Den defs th (CCondu f r nx)
 | D_condu_skip f r nx : Den defs th nx -> Den defs th (CCondu f r nx)
 | D_anyo g : Den defs th (conde_from BFS [[g]; [anyo_from [[g]]]]) -> Den defs th (CAnyo g)
+(* for x in coll { body }: the conjunction of the bodies constructed for the elements *)
+| D_everyg k rho x elems css n cs nv :
+    (fix mk (es : list term) (nv : nat) : list cgoal * nat :=
+       match es with
+       | [] => ([], nv)
+       | e :: r =>
+           let '(c, n1) := elab defs efuel k ((x, e) :: rho) (GConj (map GConj css)) nv in
+           let '(cs, n2) := mk r n1 in (c :: cs, n2)
+       end) elems n = (cs, nv) ->
+    Den defs th (from_iter k cs) -> Den defs th (CEveryg k rho x elems css)
+(* project |x| { body }: the body constructed with SOME terms for the projected names (the engine
+   takes their walked values in the arriving state; the reading only needs that a body was built) *)
+| D_project k rho xs gs rho' n c nv :
+    elab defs efuel k rho' (GConj (map (fun g => GConj [g]) gs)) n = (c, nv) -> Den defs th c -> Den defs th (CProject k rho xs gs)
 | D_opaque g : opaque g -> Den defs th g.
 
 Lemma Mst_Sol th st a : Sol st a -> Mst th a -> Mst th st.
@@ -425,6 +439,8 @@ Proof.
   - apply D_condu_commit; [apply IHSem1; eapply Mst_Sol; [eapply Sem_Sol; eauto|exact HM]|apply IHSem2; exact HM].
   - apply D_condu_skip. auto.
   - apply D_anyo. auto.
+  - eapply D_everyg; eauto.
+  - eapply D_project; eauto.
 Qed.
 
 (* end to end: what Solver::next delivers *)
@@ -434,3 +450,21 @@ Proof.
   intros H HM. pose proof (next_sound_goal defs _ _ _ _ _ _ _ _ H) as HS.
   split; [eapply Sem_Den; eauto|eapply Mst_Sol; [eapply Sem_Sol; eauto|exact HM]].
 Qed.
+
+(* the conjunction constructors keep the reading *)
+Lemma Den_conj_new defs th k a b : Den defs th (conj_new k a b) -> Den defs th a /\ Den defs th b.
+Proof.
+  unfold conj_new. destruct (is_succeed a && is_succeed b) eqn:E1.
+  - apply andb_prop in E1. destruct E1 as [Ea Eb]. apply is_succeed_eq in Ea. apply is_succeed_eq in Eb. subst. auto.
+  - destruct (is_fail a || is_fail b); intros H; inversion H; subst; auto;
+      match goal with O : opaque _ |- _ => destruct O end.
+Qed.
+Lemma Den_fold defs th k : forall cs acc,
+  Den defs th (fold_left (fun p g => conj_new k g p) cs acc) -> Den defs th acc /\ forall c, In c cs -> Den defs th c.
+Proof.
+  induction cs as [|c0 r IH]; intros acc H; cbn [fold_left] in H; [split; [exact H|intros c []]|].
+  destruct (IH _ H) as [H1 H2]. apply Den_conj_new in H1. destruct H1 as [Hc Ha].
+  split; [exact Ha|]. intros c [<-|Hin]; [exact Hc|apply H2, Hin].
+Qed.
+Lemma Den_from_iter defs th k cs : Den defs th (from_iter k cs) -> forall c, In c cs -> Den defs th c.
+Proof. unfold from_iter. intros H. apply (proj2 (Den_fold defs th k cs CSucceed H)). Qed.
